@@ -76,6 +76,13 @@ def make_cases(rng, tier):
             for _ in range(2):
                 a, m = mk_req(rng); m["tmpl"] = state; acts.append(a); meta.append(m)
         cases.append({"cfg": {"tmpl": H(DEFAULT)}, "acts": acts, "_meta": meta})
+    # the configured template path is a symbolic link which is re-pointed to a new release (ln -s + mv -T) and the old release deleted; then removed, re-created
+    acts, meta = [], []
+    for st in ("default", "literal", "default", "unparsable", "literal", "missing", "literal"):
+        acts.append({"a": "tmpl", "c": H(TMPLS[st])} if st != "missing" else {"a": "tmpl"}); meta.append({"edit": st})
+        for _ in range(2):
+            a, m = mk_req(rng); m["tmpl"] = st; acts.append(a); meta.append(m)
+    cases.append({"cfg": {"tmpl": H(DEFAULT), "tmpl_symlink": True}, "acts": acts, "_meta": meta})
     # edits which change neither the size nor the modification time of the file (all three texts are 22 bytes)
     assert len({len(TMPLS[x]) for x in ("literal", "literal2", "unparsable2")}) == 1
     for rep in range(1 if tier == "quick" else 10):
